@@ -236,7 +236,7 @@ class C12Module(py2coq.NumModule):
                 raise Untranslatable(f'{where}: parameter kind {kind}')
         return env, sig
 
-    def function_ex(self, path, fname, spec, coq_name=None, result_fields=None):
+    def function_ex(self, path, fname, spec, coq_name=None, result_fields=None, rtype=None):
         mod = self._src(path)
         fn = find_function(mod, fname)
         where = f'{Path(path).name}:{fname}'
@@ -249,7 +249,8 @@ class C12Module(py2coq.NumModule):
         guards: list[str] = []
         body = self.block(strip_doc(fn.body), env, where, guards, True, result_fields)
         c = coq_name or self._cid(fname)
-        self.defs.append(f'Definition {c} {" ".join(sig)} :=\n{body}.')
+        ty = f' : {rtype}' if rtype else ''
+        self.defs.append(f'Definition {c} {" ".join(sig)}{ty} :=\n{body}.')
         self.coqname[fname] = c
         return fn
 
@@ -265,7 +266,7 @@ class C12Module(py2coq.NumModule):
             e = self.expr(dflt[nme], {}, f'{fname}:{nme}')
             self.defs.append(f'Definition {prefix}{nme} : T N := {e}.')
 
-    def slice_fn(self, path, fname, coq_name, spec, first, last, output=None):
+    def slice_fn(self, path, fname, coq_name, spec, first, last, output=None, rtype=None):
         """Translate the top-level statements of `fname` from the first assignment to `first` through the
         next assignment to `last` as a function of `spec` returning `output` (default `last`)."""
         mod = self._src(path)
@@ -291,7 +292,8 @@ class C12Module(py2coq.NumModule):
         out = (output or last).rstrip('[]')
         retn = ast.Return(value=ast.Name(id=out, ctx=ast.Load()))
         text = self.block(body[i0:i1 + 1] + [retn], env, where, [], True, None)
-        self.defs.append(f'Definition {coq_name} {" ".join(sig)} :=\n{text}.')
+        ty = f' : {rtype}' if rtype else ''
+        self.defs.append(f'Definition {coq_name} {" ".join(sig)}{ty} :=\n{text}.')
 
     def text(self) -> str:
         return ('(* generated by translator/c12_extract.py from the current /repo working tree — do not edit *)\n'
@@ -386,7 +388,7 @@ def extract_scope11(m: C12Module, path: Path):
     text = m.block(rest + [retn], env2, where, [], True, None, indent='    ')
     afr_t = m.expr(afr.value, {}, where)
     m.defs.append(f'Definition scope11_AFR : T N * T N * T N * T N := {afr_t}.')
-    m.defs.append('Definition scope11_mode (v_SN v_AFR_m v_BP_Ratio : T N) (engine_type : string) :=\n'
+    m.defs.append('Definition scope11_mode (v_SN v_AFR_m v_BP_Ratio : T N) (engine_type : string) : T N :=\n'
                   f'  if {skipc} then ({zero} * {zero}) / {scale} else\n{text}.')
 
 
@@ -412,7 +414,8 @@ def extract_c12(repo: Path) -> str:
     m.defaults(ut, 'get_SLS_equivalent_fuel_flow', ['z', 'P_SL', 'T_SL', 'n_eng'], 'sls_default_')
     m.function_ex(ut, 'get_thrust_cat_cruise', [('ff_eval', 'num'), ('ff_cal', 'tmv')])
     nox = src / 'emissions/ei/nox.py'
-    m.function_ex(nox, 'NOx_speciation', [], result_fields=['no', 'no2', 'hono'])
+    m.function_ex(nox, 'NOx_speciation', [], result_fields=['no', 'no2', 'hono'],
+                  rtype='(T N * T N * T N * T N) * (T N * T N * T N * T N) * (T N * T N * T N * T N)')
     m.slice_fn(nox, 'BFFM2_EINOx', 'nox_clamp_cal', [('ff_cal', 'num')], 'ff_cal[]', 'ff_cal[]')
     m.slice_fn(nox, 'BFFM2_EINOx', 'nox_clamp_eval', [('ff_eval', 'num')], 'ff_eval[]', 'ff_eval[]')
     m.slice_fn(nox, 'BFFM2_EINOx', 'nox_log', [('ff_eval', 'num')], 'x_eval', 'x_eval')
@@ -421,11 +424,11 @@ def extract_c12(repo: Path) -> str:
     m.slice_fn(nox, 'BFFM2_EINOx', 'nox_ambient', [('Tamb', 'num'), ('Pamb', 'num'), ('NOxEI_sl', 'num')],
                'theta_amb', 'NOxEI')
     hc = src / 'emissions/ei/hcco.py'
-    m.slice_fn(hc, 'EI_HCCO', 'hcco_ACRP_slope', [], 'ACRP_slope', 'ACRP_slope')
+    m.slice_fn(hc, 'EI_HCCO', 'hcco_ACRP_slope', [], 'ACRP_slope', 'ACRP_slope', rtype='T N')
     m.slice_fn(hc, 'EI_HCCO', 'hcco_cruise_factor', [('Tamb', 'num'), ('Pamb', 'num')], 'theta_amb', 'factor')
     pv = src / 'emissions/ei/pmvol.py'
-    m.function_ex(pv, 'EI_PMvol_FuelFlow', [('fuelflow', 'num'), ('thrustMode', 'modeattr:data')])
-    m.function_ex(pv, 'EI_PMvol_FOA3', [('thrusts', 'num'), ('HCEI', 'num')])
+    m.function_ex(pv, 'EI_PMvol_FuelFlow', [('fuelflow', 'num'), ('thrustMode', 'modeattr:data')], rtype='T N * T N')
+    m.function_ex(pv, 'EI_PMvol_FOA3', [('thrusts', 'num'), ('HCEI', 'num')], rtype='T N * T N')
     extract_scope11(m, src / 'emissions/ei/pmnvol.py')
     return m.text()
 
